@@ -411,6 +411,12 @@ class TD3(RLAlgorithm):
         :param policy_noise: Standard deviation of noise applied to policy, defaults to 0.2
         :type policy_noise: float, optional
         """
+        # The replay buffers and samplers return TensorDicts
+        if hasattr(experiences, "keys"):
+            experiences = tuple(
+                experiences[key]
+                for key in ("obs", "action", "reward", "next_obs", "done")
+            )
         states, actions, rewards, next_states, dones = experiences
 
         actions = actions.to(self.device)
